@@ -39,7 +39,9 @@ import (
 // the private key is encrypted then the given prompter will be invoked to ask
 // for the passphrase, if provided.
 func ParseAnyPrivateKey(blob []byte, prompt passprompt.PasswordGetter) (crypto.PrivateKey, error) {
-	if bytes.HasPrefix(blob, []byte("-----BEGIN PGP")) {
+	if len(blob) == 0 {
+		return nil, errors.New("private key file is empty")
+	} else if bytes.HasPrefix(blob, []byte("-----BEGIN PGP")) {
 		return parsePgpPrivateKey(blob, prompt)
 	} else if bytes.HasPrefix(blob, []byte("-----BEGIN")) {
 		var block *pem.Block
